@@ -82,8 +82,11 @@ Definition first_longest (cs : list (list Z)) : list Z :=
 Fixpoint index_of (v : Z) (l : list Z) : nat :=
   match l with [] => 0 | x :: r => if (x =? v)%Z then 0 else S (index_of v r) end.
 
-(* g.subgraph(comp).copy() then convert_node_labels_to_integers(first_label=off): the nodes of comp in the
-   order of g, renumbered off, off+1, ...; the edges with both ends kept *)
+(* g.subgraph(comp).copy() then convert_node_labels_to_integers(first_label=off): the nodes of comp
+   renumbered off, off+1, ... in the order in which the copy lists them, the edges with both ends kept.
+   That order is networkx's business (for a component smaller than half the graph it is the iteration order
+   of the Python set), so it is an oracle value [kept]: the node order of the restricted copy as recorded by
+   the harness; tie B checks that it is a rearrangement of [keep nodes comp]. *)
 Definition keep (nodes : list Z) (comp : list Z) : list Z := filter (fun v => zmem v comp) nodes.
 Definition induced (es : list edge) (kept : list Z) : list edge :=
   filter (fun e => zmem (fst e) kept && zmem (snd e) kept) es.
@@ -107,7 +110,8 @@ Record cp_input := {
   cp_per : list edge;           (* fast_gnp_random_graph(N_per, phi_per), still labelled 0..N_per-1 *)
   cp_phi : Q;                   (* phi_per *)
   cp_rs : list Q;               (* rng.random() values, in order *)
-  cp_comps : list (list Z)      (* connected_components(g) *)
+  cp_comps : list (list Z);     (* connected_components(g) *)
+  cp_order : list Z             (* node order of g.subgraph(max(...)).copy() *)
 }.
 
 (* the composed network before the restriction *)
@@ -118,7 +122,8 @@ Definition cp_all_edges (i : cp_input) : list edge :=
   fold_left (fun g e => add_edge g (fst e) (snd e)) (cp_cross core per (cp_phi i) (cp_rs i))
             (cp_core i ++ map (shift (Z.of_nat (cp_Nc i))) (cp_per i)).
 
-Definition cp_kept (i : cp_input) : list Z := keep (cp_all_nodes i) (first_longest (cp_comps i)).
+Definition cp_component (i : cp_input) : list Z := keep (cp_all_nodes i) (first_longest (cp_comps i)).
+Definition cp_kept (i : cp_input) : list Z := cp_order i.
 
 Definition cp_generate (i : cp_input) : graph :=
   let kept := cp_kept i in
@@ -130,7 +135,8 @@ Definition nodes_of_origin (g : graph) (o : Z) : list Z :=
   map v_label (filter (fun v => (v_origin v =? o)%Z) (g_nodes g)).
 
 (* ================================================================ modular (modular_generator.py:97-146) *)
-Record module_in := { m_edges : list edge; m_comps : list (list Z) }.   (* one fast_gnp graph and its components *)
+(* one fast_gnp graph, its components, the node order of the restricted copy *)
+Record module_in := { m_edges : list edge; m_comps : list (list Z); m_order : list Z }.
 
 Record mod_input := {
   md_Nc : nat; md_Ns : nat;
@@ -140,32 +146,44 @@ Record mod_input := {
 }.
 
 (* largest component of one module, renumbered from off: its labels and edges *)
-Definition module_kept (N : nat) (m : module_in) : list Z := keep (zseq 0 N) (first_longest (m_comps m)).
+Definition module_component (N : nat) (m : module_in) : list Z := keep (zseq 0 N) (first_longest (m_comps m)).
+Definition module_kept (N : nat) (m : module_in) : list Z := m_order m.
 Definition module_nodes (N : nat) (m : module_in) (off : Z) : list Z := zseq off (length (module_kept N m)).
 Definition module_edges (N : nat) (m : module_in) (off : Z) : list edge := relabel_edges (module_kept N m) off (m_edges m).
 
 Definition sat_offset (Nc Ns : nat) (i : nat) : Z := (Z.of_nat Nc + Z.of_nat i * Z.of_nat Ns)%Z.
 
-(* the satellites with their index *)
-Fixpoint number {A} (i : nat) (l : list A) : list (nat * A) :=
-  match l with [] => [] | x :: r => (i, x) :: number (S i) r end.
+(* the satellites in order, k = index of the first one (the `for i in range(satellites)` loops) *)
+Fixpoint sat_nodes_from (Nc Ns k : nat) (sats : list module_in) : list (Z * Z) :=
+  match sats with
+  | [] => []
+  | m :: r => map (fun v => (v, Z.of_nat (S k))) (module_nodes Ns m (sat_offset Nc Ns k)) ++ sat_nodes_from Nc Ns (S k) r
+  end.
+
+Fixpoint sat_edges_from (Nc Ns k : nat) (sats : list module_in) : list edge :=
+  match sats with
+  | [] => []
+  | m :: r => module_edges Ns m (sat_offset Nc Ns k) ++ sat_edges_from Nc Ns (S k) r
+  end.
+
+(* m = rng.choice(ns_centre); n = rng.choice(ns_sat); the edge (n, m) *)
+Fixpoint links_from (ns_centre : list Z) (Nc Ns k : nat) (sats : list module_in) (choices : list (nat * nat)) : list edge :=
+  match sats, choices with
+  | m :: r, (ci, si) :: cs =>
+      (nth si (module_nodes Ns m (sat_offset Nc Ns k)) 0%Z, nth ci ns_centre 0%Z) :: links_from ns_centre Nc Ns (S k) r cs
+  | _, _ => []
+  end.
+
+Definition mod_centre_nodes (i : mod_input) : list Z := module_nodes (md_Nc i) (md_centre i) 0.
 
 Definition mod_links (i : mod_input) : list edge :=
-  let ns_centre := module_nodes (md_Nc i) (md_centre i) 0 in
-  map (fun p => let '((k, m), (ci, si)) := p in
-                (nth si (module_nodes (md_Ns i) m (sat_offset (md_Nc i) (md_Ns i) k)) 0%Z, nth ci ns_centre 0%Z))
-      (combine (number 0 (md_sats i)) (md_choices i)).
+  links_from (mod_centre_nodes i) (md_Nc i) (md_Ns i) 0 (md_sats i) (md_choices i).
 
 Definition mod_base_nodes (i : mod_input) : list (Z * Z) :=
-  map (fun v => (v, 0%Z)) (module_nodes (md_Nc i) (md_centre i) 0)
-  ++ flat_map (fun p => let '(k, m) := p in
-                        map (fun v => (v, Z.of_nat (S k))) (module_nodes (md_Ns i) m (sat_offset (md_Nc i) (md_Ns i) k)))
-              (number 0 (md_sats i)).
+  map (fun v => (v, 0%Z)) (mod_centre_nodes i) ++ sat_nodes_from (md_Nc i) (md_Ns i) 0 (md_sats i).
 
 Definition mod_base_edges (i : mod_input) : list edge :=
-  module_edges (md_Nc i) (md_centre i) 0
-  ++ flat_map (fun p => let '(k, m) := p in module_edges (md_Ns i) m (sat_offset (md_Nc i) (md_Ns i) k))
-              (number 0 (md_sats i)).
+  module_edges (md_Nc i) (md_centre i) 0 ++ sat_edges_from (md_Nc i) (md_Ns i) 0 (md_sats i).
 
 Definition is_endpoint (v : Z) (ls : list edge) : bool := existsb (fun e => (fst e =? v)%Z || (snd e =? v)%Z) ls.
 
